@@ -71,16 +71,28 @@ func genGeom(rng *fw.Rng, gtype string, i int, ox, oy float64) geom.Geometry {
 }
 
 func genTable(rng *fw.Rng, name string, count int) TableSpec {
+	return genTableAt(rng, name, count, nil)
+}
+
+// genTableAt: with inside != nil all geometries lie inside that box (minx miny maxx maxy).
+func genTableAt(rng *fw.Rng, name string, count int, inside *[4]float64) TableSpec {
 	t := TableSpec{Name: name, GeomCol: fw.Pick(rng, []string{"geom", "geometry", "shape"}), GeomType: fw.Pick(rng, []string{"POLYGON", "POLYGON", "MULTIPOLYGON", "POINT", "LINESTRING"}),
 		SRS: fw.Pick(rng, []int{28992, 3857, 3035, 4326}), Cols: genAttrCols(rng)}
 	ox, oy := 0.0, 0.0
 	if rng.Chance(3, 4) { // away from the origin (also negative)
 		ox, oy = float64(rng.Intn(800000))-400000, 300000+float64(rng.Intn(300000))
 	}
+	if inside != nil {
+		ox, oy = inside[0], inside[1]
+	}
 	fid := int64(0)
 	for i := 0; i < count; i++ {
 		fid += 1 + int64(rng.Intn(3)) // ascending with gaps: rowid order = hand-over order
-		t.Rows = append(t.Rows, RowSpec{FID: fid, Vals: genVals(rng, t.Cols, i), Geom: genGeom(rng, t.GeomType, i, ox, oy)})
+		g := genGeom(rng, t.GeomType, i, ox, oy)
+		if inside != nil {
+			g = shrinkInto(g, *inside)
+		}
+		t.Rows = append(t.Rows, RowSpec{FID: fid, Vals: genVals(rng, t.Cols, i), Geom: g})
 	}
 	return t
 }
@@ -89,9 +101,69 @@ func buildGpkgCase(gc *GpkgCase) []TableSpec {
 	rng := fw.NewRng(gc.Seed)
 	tables := []TableSpec{genTable(rng, fw.Pick(rng, []string{"perceel", "Table_One", "t1"}), gc.Count)}
 	if gc.TwoTables {
-		tables = append(tables, genTable(rng, "second_table", gc.Count2))
+		// every second time the second table lies inside the bounding box of what the first table wrote
+		var box *[4]float64
+		if rng.Bool() {
+			all := [4]float64{math.Inf(1), math.Inf(1), math.Inf(-1), math.Inf(-1)}
+			any := false
+			for _, r := range tables[0].Rows {
+				if e, ok := geomExtent(r.Geom); ok && !geomIsEmpty(r.Geom) {
+					any = true
+					all[0], all[1], all[2], all[3] = math.Min(all[0], e[0]), math.Min(all[1], e[1]), math.Max(all[2], e[2]), math.Max(all[3], e[3])
+				}
+			}
+			if any && all[2]-all[0] > 8 && all[3]-all[1] > 8 {
+				box = &all
+			}
+		}
+		tables = append(tables, genTableAt(rng, "second_table", gc.Count2, box))
 	}
 	return tables
+}
+
+// shrinkInto maps a geometry affinely into the middle half of a box.
+func shrinkInto(g geom.Geometry, box [4]float64) geom.Geometry {
+	e, ok := geomExtent(g)
+	if !ok {
+		return g
+	}
+	w, h := math.Max(e[2]-e[0], 1e-9), math.Max(e[3]-e[1], 1e-9)
+	bw, bh := (box[2]-box[0])/2, (box[3]-box[1])/2
+	f := func(p [2]float64) [2]float64 {
+		return [2]float64{box[0] + bw/2 + (p[0]-e[0])/w*bw*0.9, box[1] + bh/2 + (p[1]-e[1])/h*bh*0.9}
+	}
+	switch x := g.(type) {
+	case geom.Point:
+		return geom.Point(f(x))
+	case geom.LineString:
+		out := make(geom.LineString, len(x))
+		for i, p := range x {
+			out[i] = f(p)
+		}
+		return out
+	case geom.Polygon:
+		out := make(geom.Polygon, len(x))
+		for i, r := range x {
+			out[i] = make([][2]float64, len(r))
+			for j, p := range r {
+				out[i][j] = f(p)
+			}
+		}
+		return out
+	case geom.MultiPolygon:
+		out := make(geom.MultiPolygon, len(x))
+		for k, pg := range x {
+			out[k] = make([][][2]float64, len(pg))
+			for i, r := range pg {
+				out[k][i] = make([][2]float64, len(r))
+				for j, p := range r {
+					out[k][i][j] = f(p)
+				}
+			}
+		}
+		return out
+	}
+	return g
 }
 
 // writeThroughTarget: source file -> GetTableInfo -> TargetGeopackage.WriteFeatures for every table.
